@@ -54,6 +54,7 @@ pub struct SinkState {
     pub events: Vec<SinkEv>,
     pub write_calls: u64,
     pub flush_calls: u64,
+    pub vectored_calls: u64,
     consecutive_intr: u32,
 }
 
@@ -69,6 +70,7 @@ impl Sink {
             events: vec![],
             write_calls: 0,
             flush_calls: 0,
+            vectored_calls: 0,
             consecutive_intr: 0,
         })))
     }
@@ -123,6 +125,16 @@ impl Write for Sink {
             accepted: n,
         });
         Ok(n)
+    }
+    /// writev semantics: one call may take bytes from several slices and may stop anywhere (the
+    /// default implementation would only ever look at the first non-empty slice)
+    fn write_vectored(&mut self, bufs: &[io::IoSlice<'_>]) -> io::Result<usize> {
+        let mut joined = Vec::with_capacity(bufs.iter().map(|b| b.len()).sum());
+        for b in bufs {
+            joined.extend_from_slice(b);
+        }
+        self.0.borrow_mut().vectored_calls += 1;
+        self.write(&joined)
     }
     fn flush(&mut self) -> io::Result<()> {
         let mut s = self.0.borrow_mut();
